@@ -12,7 +12,9 @@ META = dict(
 
 def run(ctx):
     n = 100 if ctx.tier == "quick" else 2000
-    fams = [("gen", "gen.idem", n), ("gen", "gen.idem1", n), lambda: pc.family_faults(True, ctx.seed), lambda: pc.family_gates(True), pc.family_idem_clean, lambda: pc.family_resubmit(True), lambda: pc.family_error_codes(True),
+    nc = 40 if ctx.tier == "quick" else 400     # conducted replay: behaviours per model instance
+    fams = [("conduct", "conduct.idem", nc), ("conduct", "conduct.idem1", nc),
+            ("gen", "gen.idem", n), ("gen", "gen.idem1", n), lambda: pc.family_faults(True, ctx.seed), lambda: pc.family_gates(True), pc.family_idem_clean, lambda: pc.family_resubmit(True), lambda: pc.family_error_codes(True),
             pc.family_idem_extra]
     mc = ["MCProducer.idem.cfg"] if ctx.tier == "quick" else ["MCProducer.idem.cfg", "MCProducer.liveidem.cfg"]
     # the model itself exhibits the known duplicate-after-connection-loss finding: that run must violate NoDoubleAppend
